@@ -6,7 +6,7 @@ from vf import core, e2e, gen, hooks, pipeline, text
 from vf.core import Shard, rng_for
 
 PROPERTY = 'C07'
-RULE = ('reference files of 1-3 and query files of 1-8 degenerate molecules (one/two labels, coincident labels, all '
+RULE = ('reference files of 0-4 and query files of 0-9 degenerate molecules (no label at all, one/two labels, coincident labels, all '
         'labels inside one bin, queries longer than every reference, references whose labels span a fraction of '
         'ContigLength, dense, sparse, very long) mixed with ordinary planted queries; all four output modes, stdout '
         'output for best, parameter sets the option help allows (-r1/-md>=r1/-p/-pt/-ms/-b1/-r2/-b2/-ma); plus ordinary '
@@ -66,6 +66,16 @@ def make_case(rng):
             queries.append([900 + k, round(max(pos) + 100, 1), pos])
             qclass[str(900 + k)] = 'planted'
             ordinary.append(900 + k)
+    if rng.random() < 0.2:          # molecules without any label (only the end-marker row)
+        queries.append([990, float(rng.randint(1000, 500000)), []])
+        qclass['990'] = 'degenerate:unlabelled'
+    if rng.random() < 0.1:
+        refs.append([60, float(rng.randint(1000, 500000)), []])
+    x = rng.random()
+    if x < 0.03:
+        queries, qclass, ordinary = [], {}, []          # a query file with header lines only
+    elif x < 0.05:
+        refs = []
     rng.shuffle(queries)
     P = dict(gen.DEFAULTS)
     if rng.random() < 0.5:
@@ -133,7 +143,7 @@ def judge(case, wd, sh, how=None):
     if case.get('flavour') == 'degenerate':
         sh.nt([case['refs'], case['queries'], case['params'], case['mode']])
     # how many queries have no seed at all (longer than every reference)?
-    maxref = max(int(m[1]) for m in case['refs'])
+    maxref = max([int(m[1]) for m in case['refs']] or [0])
     noseed = [m for m in case['queries'] if m[2] and (m[2][-1] - m[2][0] + 1) > maxref]
     sh.count('queries-without-any-seed', len(noseed))
     if how == 'cli':
